@@ -23,6 +23,7 @@ func ruleC20(prog *Program, rep *Report) {
 	ruleNumFamily(prog, rep, 1, "asm")
 	ruleGetTwins(prog, rep)
 	ruleCallOrder(prog, rep, 1, "asm")
+	ruleRuneCase(prog, rep, 1, "asm")          // title, and whatever else changes case, works on characters
 	ruleGuardTight(prog, rep, 1, "asm", "jp")  // what counts as a path argument ("$", "@", "$.a") is decided by such tests; the parsers' byte-order-mark tests (3 < len(buf) for three bytes) are outside this scope
 	ruleDirectConversion(prog, rep, "asm", 15) // sum, dif, product, mod, eq and the ordering functions read integers of every width through these arms
 	// E-recover
